@@ -138,6 +138,16 @@ CLAIMED["C16"] = dict(
          "findings F-16b..h and the generic spec-level findings are excluded and counted.",
     design_ref="DESIGN.md §4 C16")
 
+CLAIMED["C17"] = dict(
+    technique="Hypothesis-generated circuits, parameter maps and grids; every returned grid row is re-built from "
+              "scratch and compared with the reference interpreter (differential per row)",
+    text="grid_search over node constants/initial values and edge weights (several nodes/vars/edges per key, edge "
+         "indices, equal-length and permuted grids, optional extrinsic input, euler and scipy): the columns labelled "
+         "with a row's key must carry the trajectory of a separate run with that row's values, all rows appear once.",
+    note="Flat base circuits; only circuits whose plain run agrees with the reference are judged; grid keys address "
+         "disjoint variables/edges (overlapping keys have no defined meaning).",
+    design_ref="DESIGN.md §4 C17")
+
 NOT_YET = {}
 
 
